@@ -528,4 +528,21 @@ def r5_result_sees_loaded_state(ctx):
     r5_pass_through(ctx)
 
 
-RULES = [r5_result_sees_loaded_state, r1_detector_key_parity, r2_ctor_todict_parity, r3_backend_parity, r4_load_model_has_effect]
+def r6_photon_cube_saved_whole(ctx):
+    """Photon.to_dict writes a 2-D photon array as (a copy of) self._array and a multi-wavelength cube as self._array.to_dict() - the stored DataArray itself with ALL its coordinates, not a reduced / re-indexed view of it (reset_coords, drop_vars, isel, ...); from_dict rebuilds it with DataArray.from_dict of the same entry."""
+    td = ctx.func("pyxel.data_structure.photon:Photon.to_dict")
+    fd = ctx.func("pyxel.data_structure.photon:Photon.from_dict")
+    calls = [c for c in calls_in(td.node) if isinstance(c.func, ast.Attribute) and c.func.attr == "to_dict" and not c.args]
+    ok = bool(calls)
+    bad = None
+    for c in calls:
+        recv = expand(td, c.func.value)
+        if dotted(recv) != "self._array":
+            ok, bad = False, recv
+    ctx.check(ok, td.qual + "#cube-whole", "the cube is serialised from self._array itself" if ok else (f"the cube is serialised from `{norm(bad)[:60]}`, not from the stored array: coordinates / entries it carries are missing from the file and the loaded photon differs from the saved one" if bad is not None else "the multi-wavelength photon is not serialised with to_dict()"), where=td, node=calls[0] if calls else td.node)
+    fdc = [c for c in calls_in(fd.node) if call_name(c).endswith("DataArray.from_dict")]
+    ok = len(fdc) >= 1
+    ctx.check(ok, fd.qual + "#cube-whole", "rebuilt with DataArray.from_dict" if ok else "the cube is not rebuilt with DataArray.from_dict", where=fd, node=fdc[0] if fdc else fd.node)
+
+
+RULES = [r6_photon_cube_saved_whole, r5_result_sees_loaded_state, r1_detector_key_parity, r2_ctor_todict_parity, r3_backend_parity, r4_load_model_has_effect]
